@@ -173,9 +173,17 @@ def poolClass (n a : Int) : String :=
 def poolBad (S : Int) (sh : Nat) (n a : Int) : String :=
   s!"bad {a} {hwRound (a * S) sh} {refAvg a n} {poolClass n a}"
 
-def poolPts (S : Int) (sh : Nat) (n : Int) : List Int → Nat → String
-  | a :: rest, i => if PoolOk S sh n a then poolPts S sh n rest (i + 1) else poolBad S sh n a
-  | [], i => s!"ok {i}"
+/-- all points are checked; an offender outside the recorded 16-bit corner (class `u`) is reported
+    in preference to one inside it (class `k`) -/
+def poolPts (S : Int) (sh : Nat) (n : Int) : List Int → Nat → Option Int → String
+  | a :: rest, i, known =>
+    if PoolOk S sh n a then poolPts S sh n rest (i + 1) known
+    else if poolClass n a == "u" then poolBad S sh n a
+    else poolPts S sh n rest (i + 1) (if known.isNone then some a else known)
+  | [], i, known =>
+    match known with
+    | some a => poolBad S sh n a
+    | none => s!"ok {i}"
 
 /-- tolerance of a quantised pair against the real quotient: `2^-31` for the quantisation plus
     three roundings of the float arithmetic in force -/
@@ -356,7 +364,7 @@ def handle : List String → Option String
     let sh ← parseInt? sh
     let pts ← parseInts pts
     if ¬ PoolFields S sh then some "bad fields" else
-    some (poolPts S sh.toNat n pts 0)
+    some (poolPts S sh.toNat n pts 0 none)
   | "mulspec" :: rest => do
     let (a, rest) ← parseFVal rest
     let (b, rest) ← parseFVal rest
